@@ -452,9 +452,22 @@ func run(thorough bool) func(shard, shards int, deadline time.Time) *explore.Res
 			prep   func(ctx sdk.Context, src legacy, tgt world.Actor) (sdk.Context, legacy, world.Actor, string)
 			reject bool
 		}
-		govCase := func(role, phase, who string) refusal {
+		// regime: how the proposal's end time relates to the periods configured when the migration is attempted -
+		//   default        periods unchanged, migration attempted right after the involvement
+		//   late           13 days later (the proposal is still open)
+		//   shortened      governance shortened the deposit and voting periods to one hour after the proposal was opened
+		//   custom-long    the message type has its own 30-day voting period (longer than the default) and 20 days have passed
+		govCase := func(role, phase, who, regime string) refusal {
 			reject := phase != "ended"
-			return refusal{fmt.Sprintf("gov/%s/%s/%s", who, role, phase), func(ctx sdk.Context, src legacy, tgt world.Actor) (sdk.Context, legacy, world.Actor, string) {
+			nm := fmt.Sprintf("gov/%s/%s/%s", who, role, phase)
+			if regime != "default" {
+				nm += "/" + regime
+			}
+			return refusal{nm, func(ctx sdk.Context, src legacy, tgt world.Actor) (sdk.Context, legacy, world.Actor, string) {
+				if regime == "custom-long" {
+					month := 30 * 24 * time.Hour
+					e.deliverOK(ctx, &fxgovtypes.MsgUpdateCustomParams{Authority: world.GovAuthority(), MsgUrl: sdk.MsgTypeURL(&fxgovtypes.MsgUpdateSwitchParams{}), CustomParams: fxgovtypes.CustomParams{DepositRatio: "0", VotingPeriod: &month, Quorum: "0.4"}})
+				}
 				actor := src.Acc()
 				if who == "target" {
 					actor = tgt.Acc()
@@ -488,6 +501,27 @@ func run(thorough bool) func(shard, shards int, deadline time.Time) *explore.Res
 					// voters need stake to be recorded; a vote is stored regardless
 					e.deliverOK(ctx, govv1.NewMsgVote(actor, id, govv1.OptionYes, ""))
 				}
+				switch regime {
+				case "late":
+					ctx = e.block(ctx, 13*24*time.Hour)
+				case "custom-long":
+					ctx = e.block(ctx, 20*24*time.Hour)
+				case "shortened":
+					gp, err := w.App.GovKeeper.Params.Get(ctx)
+					if err != nil {
+						panic(err)
+					}
+					hour, half := time.Hour, 30*time.Minute
+					gp.MaxDepositPeriod, gp.VotingPeriod, gp.ExpeditedVotingPeriod = &hour, &hour, &half
+					e.deliverOK(ctx, &govv1.MsgUpdateParams{Authority: world.GovAuthority(), Params: gp})
+					ctx = e.block(ctx, 5*time.Second)
+				}
+				if regime != "default" {
+					// the harness's own precondition: the proposal is still open
+					if pr, err := w.App.GovKeeper.Proposals.Get(ctx, id); err != nil || (pr.Status != govv1.StatusDepositPeriod && pr.Status != govv1.StatusVotingPeriod) {
+						panic(fmt.Sprintf("c14: %s: the proposal is not open any more (%v %v)", nm, pr.Status, err))
+					}
+				}
 				if phase == "ended" {
 					ctx = e.block(ctx, 15*24*time.Hour)
 					ctx = e.block(ctx, 5*time.Second)
@@ -501,7 +535,13 @@ func run(thorough bool) func(shard, shards int, deadline time.Time) *explore.Res
 		for _, who := range []string{"source", "target"} {
 			for _, role := range []string{"proposer", "depositor", "voter"} {
 				for _, phase := range []string{"deposit", "voting", "ended"} {
-					refs = append(refs, govCase(role, phase, who))
+					refs = append(refs, govCase(role, phase, who, "default"))
+					if phase != "ended" {
+						refs = append(refs, govCase(role, phase, who, "late"), govCase(role, phase, who, "shortened"))
+					}
+					if phase == "voting" {
+						refs = append(refs, govCase(role, phase, who, "custom-long"))
+					}
 				}
 			}
 		}
@@ -620,7 +660,7 @@ func init() {
 	registry.Register(&registry.Check{
 		ID:    "C14",
 		Level: "model_checking",
-		Rule:  "family A: every source portfolio in {second denom} x {no delegation, V1, V1+V2} x {0,1,2 unbonding entries on V1} x {entry shares / does not share its completion time with another delegator} x {redelegation} x {pending rewards} is built through ordinary messages and migrated to a fresh target; oracles: portfolio(target) after = portfolio(source) before, source empty, validator totals and supply unchanged, all crisis invariants, second migration refused, and a twin run - withdraw, fully undelegate, wait 22 days - gives the migrated target exactly what the un-migrated source gets on a sibling branch. Family B: governance involvement {proposer, depositor, voter} x {deposit period, voting period, ended} x {source, target}, target with delegation / unbonding / validator operator / already migrated, signature by another key / over the swapped pair / valid for another source and already seen by the node: accepted iff the statement's conditions hold, refusals change no byte. states = distinct configurations",
+		Rule:  "family A: every source portfolio in {second denom} x {no delegation, V1, V1+V2} x {0,1,2 unbonding entries on V1} x {entry shares / does not share its completion time with another delegator} x {redelegation} x {pending rewards} is built through ordinary messages and migrated to a fresh target; oracles: portfolio(target) after = portfolio(source) before, source empty, validator totals and supply unchanged, all crisis invariants, second migration refused, and a twin run - withdraw, fully undelegate, wait 22 days - gives the migrated target exactly what the un-migrated source gets on a sibling branch. Family B: governance involvement {proposer, depositor, voter} x {deposit period, voting period, ended} x {source, target} x {attempted at once, 13 days later, after governance shortened both periods to one hour, under a 30-day per-type voting period 20 days in}, target with delegation / unbonding / validator operator / already migrated, signature by another key / over the swapped pair / valid for another source and already seen by the node: accepted iff the statement's conditions hold, refusals change no byte. states = distinct configurations",
 		Assumptions: []string{"source accounts are legacy secp256k1 accounts whose public key is on record (the module requires it)", "stake unit 100 FX; validators never slashed here"},
 		Jobs: func(tier string) []registry.Job {
 			return []registry.Job{{Name: "portfolios+conditions", Custom: run(tier == "thorough"), Shards: 16}}
